@@ -511,6 +511,12 @@ class TorControlProtocol(LineOnlyReceiver):
         strargs = [str(x) for x in args]
         keys = [strargs[i] for i in range(0, len(strargs), 2)]
         values = [strargs[i] for i in range(1, len(strargs), 2)]
+        for k in keys:
+            # anything else would end the keyword early (or even start
+            # another command) when Tor parses the line
+            if not k or any(c.isspace() or c in '="' for c in k):
+                return defer.fail(
+                    ValueError("Invalid configuration key: %r" % k))
 
         def maybe_quote(s):
             # a QuotedString with C-style escapes (control-spec 2.1.1)
